@@ -74,6 +74,10 @@ POSITIONS = {
     'slice_base': _in_fn(lambda b, e: [b.expr_stmt(b.slice(b.index(b.var('arrs'), e), None, b.num(2)))]),
     'array_literal': _in_fn(lambda b, e: [b.expr_stmt(b.array_lit([b.var('a'), e]))]),
     'tuple_component': _in_fn(lambda b, e: [b.expr_stmt(b.list_([b.var('a'), e]))]),
+    # destructuring with EMPTY slots: a component behind, between and in front of a hole
+    'tuple_component_after_hole': _in_fn(lambda b, e: [b.expr_stmt(b.bin('Assign', b.list_([None, e]), b.call(b.var('g'), [])))]),
+    'tuple_component_between_holes': _in_fn(lambda b, e: [b.expr_stmt(b.bin('Assign', b.list_([b.var('a'), None, e, None]), b.call(b.var('g'), [])))]),
+    'tuple_component_before_hole': _in_fn(lambda b, e: [b.expr_stmt(b.bin('Assign', b.list_([e, None]), b.call(b.var('g'), [])))]),
     'ternary_condition': _in_fn(lambda b, e: [b.expr_stmt(b.ternary(fit(b, e, 13), b.var('a'), b.var('d')))]),
     'ternary_branch': _in_fn(lambda b, e: [b.expr_stmt(b.ternary(b.var('c'), fit(b, e, 14), b.var('d')))]),
     'power_exponent': _in_fn(lambda b, e: [b.expr_stmt(b.bin('Power', b.var('a'), fit(b, e, 3)))]),
@@ -135,7 +139,7 @@ for _k, _v in POSITIONS.items():
 QUICK_POSITIONS = ['statement', 'slice_start_only', 'slice_end_only', 'initialiser', 'if_condition', 'for_condition', 'call_argument', 'power_exponent',
                    'for_condition_after_conditionless_for', 'for_condition_inside_conditionless_for', 'after_neutral_statements',
                    'prefix_increment_operand', 'unchecked_block', 'unchecked_if_body', 'unchecked_initialiser', 'catch_body', 'try_success_block_without_returns',
-                   'call_option_value', 'modifier_argument',
+                   'call_option_value', 'modifier_argument', 'tuple_component_after_hole',
                    'state_variable_initialiser', 'free_function_body', 'ternary_branch', 'second_contract']
 
 
